@@ -468,7 +468,7 @@ fn main() {
 
     // ---- random deeper trees with finite and infinite leaves
     let depth = cli.t(4, 6);
-    let n_rand = cli.t(6_000u64, 300_000u64);
+    let n_rand = cli.t(6_000u64, 3_000_000u64);
     let reps = vmon::par_for(cli.threads, n_rand, 32, |_| Report::new("C05", "w"), |rep, i| {
         let mut rng = Rng::derive(cli.seed, &[5, i]);
         let (node, nl) = random_bounded_tree(&mut rng, depth, 5);
